@@ -134,6 +134,14 @@ class LinInterp(OrderInterp):
                 and type(a) is type(b):
             eq = len(a) == len(b) and all(self.concrete_eq(x, y, node) for x, y in zip(a, b))
             return eq if isinstance(op, ast.Eq) else not eq
+        if isinstance(a, Obj) and isinstance(b, Obj) and isinstance(op, (ast.Eq, ast.NotEq)):
+            # records compare by their class's own __eq__ (interpreted), never by guesswork
+            for cls in self.prog.all_classes():
+                if cls.name == a.cls:
+                    m = self.prog.resolve_method(cls, "__eq__")
+                    if m is not None:
+                        eq = self.truth(self.call_func(m, [a, b], {}), node)
+                        return eq if isinstance(op, ast.Eq) else not eq
         if (isinstance(a, Lin) or isinstance(b, Lin)) and isinstance(
                 op, (ast.Lt, ast.LtE, ast.Gt, ast.GtE, ast.Eq, ast.NotEq)):
             la, lb = self._lin(a), self._lin(b)
@@ -377,10 +385,12 @@ def split_sweep(fn: FuncInfo) -> tuple[list[ast.stmt], ast.For, list[ast.stmt]]:
     return body[:i], loops[0], body[i + 1:]
 
 
-def mk_system(it: OrderInterp, order: str) -> tuple[Obj, Obj, Obj]:
+def mk_system(it: OrderInterp, order: str, keep_zero: bool = False) -> tuple[Obj, Obj, Obj]:
     """SystemBounds with inclusion (sysL, sysU) and exclusion (sel, seu); `order` fixes the zone:
     'strict' sysL < sel < 0 < seu < sysU, 'degenerate' sel = 0 = seu."""
-    zero = it.globals["__ZERO__"] = Atom("ZERO")
+    if not keep_zero or "__ZERO__" not in it.globals:
+        it.globals["__ZERO__"] = Atom("ZERO")
+    zero = it.globals["__ZERO__"]
     sl, su, el, eu = Atom("sysL"), Atom("sysU"), Atom("sel"), Atom("seu")
     if order == "strict":
         for a, b in ((sl, el), (el, zero), (zero, eu), (eu, su)):
